@@ -47,6 +47,7 @@ def run(model, res, tier):
     res.rule('R5', 'TRUE, FALSE, NULL are predefined')
     res.rule('R6', 'registered names are lexed as FUNCTION tokens')
     res.rule('R7', 'name resolution keeps no cache / shared state')
+    res.rule('R8', 'the lexer hands function and variable names on verbatim (token rules of name tokens return the token unmodified)')
     res.assumptions += ['A3 ply swallows SyntaxError raised in a reduce action', 'host callbacks do not raise SyntaxError themselves']
     res.trusted += ['CPython ast', 'ply 3.11 token ordering', 'Python re for membership of the 156 registry names in the token language']
     cbs = callbacks(c)
@@ -59,14 +60,108 @@ def run(model, res, tier):
     _r4(model, res, c)
     _r5(model, res, c)
     _r6(model, res, c)
+    name_tokens_verbatim(model, res, c, cbs, 'R8')
     from . import c03
     c03.instance_state(model, res, c, 'R7')
     region = set(cg.reachable([cbs['call_function'], cbs['call_variable']]))
     region -= set(cg.registry_keys)
     region = set(k for k in region if k in cg.funcs and not _below_registry(cg, k))
+    # the grammar actions that hand names to the two callbacks, and the method that drives the ply parser around them
+    for r in cg.p_roots:
+        if cg.edges.get(r, set()) & set([cbs['call_function'], cbs['call_variable']]):
+            region.add(r)
+    for k_, (m_, f_) in cg.funcs.items():
+        if '.<locals>.' in k_[1]:
+            continue
+        for n_ in ast.walk(f_):
+            if isinstance(n_, ast.Call) and isinstance(n_.func, ast.Attribute) and n_.func.attr == 'parse' and \
+                    isinstance(n_.func.value, ast.Attribute) and n_.func.value.attr in cg.yacc_attrs:
+                region.add(k_)
     n = purity.check_region(res, c, 'R7', None, region, 'name resolution')
     purity.check_memo(res, c, 'R7', region, 'a function used in name resolution')
     res.analysed['functions in the name-resolution region'] = len(region)
+
+
+def name_tokens(c, cbs, which=('call_function', 'call_variable')):
+    """Terminals whose lexeme reaches a name-resolving callback: those in the productions of the actions that invoke the
+    callback, through non-terminals that carry a single name (not through expression lists)."""
+    g, cg = c.grammar, c.cg
+    targets = set(cbs[w] for w in which if w in cbs)
+    by_name = {}
+    for p in g.productions:
+        by_name.setdefault(p.name, []).append(p)
+    terms = set(g.tokens)
+    out = set()
+    seen = set()
+
+    def expand(sym, depth):
+        if sym in terms:
+            out.add(sym)
+            return
+        if sym in seen or depth > 4:
+            return
+        seen.add(sym)
+        for q in by_name.get(sym, []):
+            if any(s_ == 'expression' or s_.startswith('expseq') for s_ in q.syms):
+                continue
+            for s_ in q.syms:
+                expand(s_, depth + 1)
+    for p in g.productions:
+        key = (g.gm.name, '%s.%s' % (g.gcls.name, p.funcname))
+        mf = g.action_funcs.get(p.funcname)
+        if mf is None:
+            continue
+        key = (mf[0].name, mf[0].qualname_of(mf[1]))
+        if cg.edges.get(key, set()) & targets:
+            for s_ in p.syms:
+                if s_ != 'expression' and not s_.startswith('expseq'):
+                    expand(s_, 0)
+    return sorted(out)
+
+
+def name_tokens_verbatim(model, res, c, cbs, R, which=('call_function', 'call_variable'), what='name'):
+    g = c.grammar
+    toks = [t for t in name_tokens(c, cbs, which) if g.lex_token(t) is not None]
+    carriers = []
+    for tn in toks:
+        t = g.lex_token(tn)
+        if not t.is_func or not isinstance(t.node, ast.FunctionDef):
+            res.ob(R, 'lexer:t_%s' % tn, 'string rule: lexeme handed on verbatim', True)
+            continue
+        # punctuation tokens (a literal lexeme) carry no name
+        from .. import rx
+        try:
+            if rx.literal_lexeme(t.regex) is not None:
+                continue
+        except Exception:
+            pass
+        carriers.append(tn)
+        f = t.node
+        tp = sa.params(f)[0] if sa.params(f) else None
+        bad = []
+        for n in walk_no_defs(f):
+            tg = []
+            if isinstance(n, ast.Assign):
+                tg = n.targets
+            elif isinstance(n, (ast.AugAssign, ast.AnnAssign)):
+                tg = [n.target]
+            for x in tg:
+                for y in ast.walk(x):
+                    if isinstance(y, ast.Attribute) and isinstance(y.value, ast.Name) and y.value.id == tp and y.attr in ('value', 'type'):
+                        bad.append(n)
+            if isinstance(n, ast.Call) and sa.call_name(n) == 'setattr' and n.args and isinstance(n.args[0], ast.Name) and n.args[0].id == tp:
+                bad.append(n)
+            if isinstance(n, ast.Return) and not (isinstance(n.value, ast.Name) and n.value.id == tp):
+                bad.append(n)
+        res.ob(R, 'lexer:t_%s' % tn, 'token rule returns the token unmodified', not bad, '; '.join(src(b) for b in bad))
+        if bad:
+            res.violation(R, 'lexer:t_%s:rewrites-lexeme' % tn, g.lexer_module.where(bad[0]),
+                          'the token rule of %s rewrites or replaces the token (%s): the %s handed to the parser callbacks is no longer the text '
+                          'written in the formula, so a binding registered under the written spelling is not found (or another one is)'
+                          % (tn, src(bad[0]), what), func='t_' + tn)
+    res.analysed['%s-bearing tokens' % what] = toks
+    res.floor('%s-bearing tokens found' % what, len(toks), 2)
+    return carriers
 
 
 def _below_registry(cg, k):
